@@ -259,6 +259,11 @@ func (w *world) historicTraffic(rep *replica, r *Rng) {
 	if last-1 < first {
 		return
 	}
+	if r.Chance(25) {
+		// also the latest committed version (a reader that is up to date, unless writes are pending)
+		_, _, err := TwinEthCallAt(c, w.trafficAcc.GetEthAddress(), &w.logger, []byte{1}, last)
+		w.side.Count(fmt.Sprintf("traffic:latest:eth_call:err=%v", err != nil))
+	}
 	symbol := w.erc20Pack("symbol")
 	from := w.trafficAcc.GetEthAddress()
 	heights := []int64{last - 1}
